@@ -32,6 +32,9 @@ THEOREMS = [
     "C11_reader_refines_spec",
     "C11_reader_inputs",
     "C11_reader_layout",
+    "C11_spec_layout",
+    "C11_reader_render",
+    "C11_reader_layout_render",
 ]
 WORKERS = 8
 ALL_FEATS = ["blanks", "newline", "amp", "dollar", "comments", "lead", "trail", "pre"]
@@ -272,6 +275,42 @@ def exhaustive_layouts():
 FIXED_PROB = {"title": "fixed problem of the exhaustive layout sub-space", "message": None}
 
 
+def comment_lines():
+    """exhaustive small sub-space for the comment-line rule: indent 0-8 x heads x tails x line ends"""
+    heads = ["c", "C", "cc", "c1", "x", "$", "#", "&", ""]
+    tails = ["", " ", "  text", "\ttext", " &", "text", " $ x"]
+    for ind in range(9):
+        for h in heads:
+            for t in tails:
+                for eol in ("\n", ""):
+                    yield " " * ind + h + t + eol
+
+
+def unit_is_comment(chk, drv):
+    """U-comment: utilities.is_comment == Model.isComment == the Spec's column rule, on every line of the sub-space.
+    (read_data calls is_comment on the tab-expanded line; so does this unit.)"""
+    from vlib import mp
+
+    is_comment = mp.montepy.utilities.is_comment
+    lines = [l.expandtabs(8) for l in comment_lines()]
+    impl = [bool(is_comment(l)) for l in lines]
+    model = drv.batch([{"op": "is_comment", "text": l} for l in lines])
+    spec = drv.batch([{"op": "spec_is_comment", "text": l.rstrip("\n")} for l in lines])
+    chk.units["U-comment"] = {"exhaustive_lines": len(lines)}
+    for l, a, m, sp in zip(lines, impl, model or impl, spec or impl):
+        chk.note_case({"is_comment": l}, True)
+        chk.count("comment-line:" + str(a))
+        if model is not None and a != m:
+            chk.broken_obligation("correspondence", "U-comment (Model.isComment vs utilities.is_comment)", {"impl": a, "model": m}, {"line": l})
+        if spec is not None and a != sp and bool(is_comment(l)) == a:
+            col = len(l) - len(l.lstrip(" "))
+            chk.violation(
+                {"mechanism": "reader", "class": "comment-misread", "feature": "column-rule", "column": "beyond-5" if col >= 5 else "1-5"},
+                f"is_comment({l!r}) = {a}, MCNP's rule (C in columns 1-5 followed by a blank or the line end) says {sp}",
+                {"line": l, "impl": a, "spec": sp},
+            )
+
+
 def load_corpus():
     """corpus/C11/*.json: replay payloads of recorded findings and repaired defects"""
     import glob
@@ -347,6 +386,8 @@ def run(chk):
     spec = drv.batch([{"op": "spec", "limit": l["limit"], "text": t} for t, (_, _, l) in zip(texts, jobs)])
     rendered = drv.batch([{"op": "render", "inputs": [inp for blk in l["blocks"] for inp in blk]} for _, _, l in jobs])
 
+    unit_is_comment(chk, drv)
+
     ref, ref_lay = {}, {}
     for (pi, prob, lay), o in zip(jobs, obs):
         if pi not in ref:
@@ -375,6 +416,9 @@ def run(chk):
             continue
         if v is not None:
             sig0, what = v
+            if sum(1 for x in chk.violations if all(x["signature"].get(k) == val for k, val in sig0.items())) >= 3:
+                chk.count("violations-not-minimised")
+                continue
 
             def fails(cand, sig0=sig0, prob=prob, pi=pi):
                 oo = observe_layout((prob, cand))
@@ -415,8 +459,21 @@ def replay(chk, payload):
         stored = payload["no_longer_checks"][0]["case"]
     else:
         stored = payload.get("case", payload)
-    prob, lay = stored["problem"], stored["layout"]
     drv = leanio.Driver(chk, "drv_c20")
+    if "line" in stored:
+        from vlib import mp
+
+        l = stored["line"]
+        a = bool(mp.montepy.utilities.is_comment(l))
+        sp = drv.batch([{"op": "spec_is_comment", "text": l.rstrip("\n")}])[0] if drv.ok else stored.get("spec")
+        chk.note_case({"is_comment": l})
+        if a != sp:
+            col = len(l) - len(l.lstrip(" "))
+            chk.violation({"mechanism": "reader", "class": "comment-misread", "feature": "column-rule", "column": "beyond-5" if col >= 5 else "1-5"},
+                          f"is_comment({l!r}) = {a}, MCNP's rule says {sp}", {"line": l, "impl": a, "spec": sp})
+        chk.add_obligation("replay", True)
+        return
+    prob, lay = stored["problem"], stored["layout"]
     canonical = stored.get("canonical_layout")
     if canonical is None:
         canonical = copy.deepcopy(lay)
